@@ -39,6 +39,8 @@ type simConn struct {
 	closedRemote bool
 	// seenClosed: the simulator has processed the client's close.
 	seenClosed bool
+	// sig is signalled on every client write/close (free-running mode).
+	sig chan struct{}
 	// lastAt: delivery time of the latest scheduled answer; the link is
 	// TCP-like, so later answers never overtake earlier ones.
 	lastAt time.Time
@@ -70,6 +72,7 @@ func (c *simConn) Write(p []byte) (int, error) {
 	c.out = append(c.out, p...)
 	c.mu.Unlock()
 	c.net.notify()
+	c.signal()
 	return len(p), nil
 }
 
@@ -81,8 +84,16 @@ func (c *simConn) Close() error {
 	c.mu.Unlock()
 	if !already {
 		c.net.notify()
+		c.signal()
 	}
 	return nil
+}
+
+func (c *simConn) signal() {
+	select {
+	case c.sig <- struct{}{}:
+	default:
+	}
 }
 
 func (c *simConn) LocalAddr() net.Addr                { return c.local }
@@ -119,6 +130,7 @@ func (c *simConn) closeRemote() {
 	c.closedRemote = true
 	c.cond.Broadcast()
 	c.mu.Unlock()
+	c.signal()
 }
 
 // take removes and returns everything the client wrote so far.
@@ -142,13 +154,17 @@ type Net struct {
 	peers    map[string]*SimPeer // by "ip:port"
 	conns    []*simConn
 	activity chan struct{}
+	up       map[string]bool     // node reachable (set by the simulator)
+	live     map[string]*simConn // latest connection per node
+	fresh    []*simConn          // accepted, not yet seen by the simulator
 	dials    int
 	refused  int
 	bnet     wire.BitcoinNet
 }
 
 func newNet(bnet wire.BitcoinNet) *Net {
-	return &Net{peers: map[string]*SimPeer{}, activity: make(chan struct{}, 1), bnet: bnet}
+	return &Net{peers: map[string]*SimPeer{}, activity: make(chan struct{}, 1), bnet: bnet,
+		up: map[string]bool{}, live: map[string]*simConn{}}
 }
 
 func (n *Net) notify() {
@@ -164,8 +180,9 @@ func (n *Net) Dial(addr net.Addr) (net.Conn, error) {
 	n.mu.Lock()
 	defer n.mu.Unlock()
 	n.dials++
-	p := n.peers[addr.String()]
-	if p == nil || !p.up || (p.conn != nil && !p.conn.dead()) {
+	key := addr.String()
+	p := n.peers[key]
+	if p == nil || !n.up[key] || (n.live[key] != nil && !n.live[key].dead()) {
 		n.refused++
 		n.notify()
 		return nil, errRefused
@@ -174,10 +191,35 @@ func (n *Net) Dial(addr net.Addr) (net.Conn, error) {
 	c := &simConn{id: len(n.conns), net: n, peer: p, remote: ta,
 		local: &net.TCPAddr{IP: net.IPv4(10, 9, 9, 9), Port: 40000 + len(n.conns)}}
 	c.cond = sync.NewCond(&c.mu)
+	c.sig = make(chan struct{}, 1)
 	n.conns = append(n.conns, c)
-	p.attach(c)
+	n.live[key] = c
+	// The node model itself is only ever touched by the simulator goroutine:
+	// it picks the new connection up at the next quiescent point.
+	n.fresh = append(n.fresh, c)
 	n.notify()
 	return c, nil
+}
+
+// takeFresh returns the connections accepted since the last call.
+func (n *Net) takeFresh() []*simConn {
+	n.mu.Lock()
+	defer n.mu.Unlock()
+	f := n.fresh
+	n.fresh = nil
+	return f
+}
+
+func (n *Net) nDials() int {
+	n.mu.Lock()
+	defer n.mu.Unlock()
+	return n.dials
+}
+
+func (n *Net) setUp(key string, up bool) {
+	n.mu.Lock()
+	n.up[key] = up
+	n.mu.Unlock()
 }
 
 // parser splits a byte stream into wire messages.
